@@ -12,10 +12,16 @@ package pe
 
 // ---- C12: the verifier accepts a submission only if it equals what matching itself selects ----
 
+// A mapping cannot lie about its format: the value at its path is decoded ONLY in the way the mapping's format names for a value
+// of that JSON type (string: jwt_vc / jwt_vp; object: ldp_vc / ldp_vp) - any other format for that value is an error, never a
+// best-effort parse (what the parsers accept, and JSON path evaluation, are not decided here).
 //@ func resolveCredential
-//@   trusted
-//@   benign
-//@   ensures isNilIface(result.1) ==> result.0 != nil
+//@   prop C12
+//@   assume-benign
+//@   call vc.ParseVerifiableCredential #1 requires [jwt-credential-only-for-format-jwt_vc] mapping.Format == vc.JWTCredentialProofFormat && typeOf(targetValueRaw) == string
+//@   call vc.ParseVerifiablePresentation #1 requires [jwt-presentation-only-for-format-jwt_vp] mapping.Format == vc.JWTPresentationProofFormat && typeOf(targetValueRaw) == string
+//@   call vc.ParseVerifiableCredential #2 requires [ld-credential-only-for-format-ldp_vc] mapping.Format == vc.JSONLDCredentialProofFormat && typeOf(targetValueRaw) == map[string]any
+//@   call vc.ParseVerifiablePresentation #2 requires [ld-presentation-only-for-format-ldp_vp] mapping.Format == vc.JSONLDPresentationProofFormat && typeOf(targetValueRaw) == map[string]any
 // Every descriptor id is mapped at most once: a surplus entry for an id cannot be hidden behind a later one.
 //@ func (PresentationSubmission).Resolve
 //@   prop C12
